@@ -26,6 +26,7 @@ pub struct Case {
 
 pub const F_ANSI: &str = "C07-ansi-underscore-identifier";
 pub const F_ORDER: &str = "C05-result-column-order-differs-from-frame";
+pub const F_BARE_EXCLUDE: &str = "C05-exclusion-by-bare-name-after-split";
 
 pub fn schema_for(db: &Db) -> Schema {
     schema_of(db, false)
@@ -251,7 +252,6 @@ pub fn check(case: &Case, known: &Known, mode: Mode, hazard: bool) -> Outcome {
         // of different arity
         // (the operands' different arities may also leave a later reference unresolved)
         if sql.contains("INTERSECT ALL") && !src.contains("intersect") && !bound.errors.is_empty()
-            && bound.errors.iter().any(|e| e.starts_with("set operation between"))
             && known.is_open("C07-join-rewritten-to-intersect")
         {
             out.verdict = Verdict::Known("C07-join-rewritten-to-intersect".into(), bound.errors[0].clone());
@@ -265,7 +265,7 @@ pub fn check(case: &Case, known: &Known, mode: Mode, hazard: bool) -> Outcome {
             continue;
         }
         if sql.contains("DISTINCT ON") && !bound.errors.is_empty()
-            && bound.errors.iter().all(|e| e.starts_with("ORDER BY: column _expr_"))
+            && bound.errors.iter().all(|e| (e.starts_with("ORDER BY: column _expr_") || e.starts_with("SELECT: column _expr_")) && e.ends_with("is not in scope"))
             && known.is_open("C07-distinct-on-computed-sort-key")
         {
             out.verdict = Verdict::Known("C07-distinct-on-computed-sort-key".into(), bound.errors[0].clone());
@@ -341,6 +341,24 @@ pub fn check(case: &Case, known: &Known, mode: Mode, hazard: bool) -> Outcome {
                 );
                 if order_only && known.is_open(F_ORDER) {
                     o.verdict = Verdict::Known(F_ORDER.into(), format!("frame {:?} vs result {:?}", want, got));
+                }
+                // recorded finding: after a sub-query split the exclusion is re-emitted as an
+                // unqualified `* EXCLUDE (n)`, which also removes the other relation's column n
+                if !arity_ok && HAS_EXCLUDE.contains(dn) && known.is_open(F_BARE_EXCLUDE) {
+                    let mut missing: Vec<String> = want.iter().flatten().cloned().collect();
+                    for g in got.iter().flatten() {
+                        if let Some(i) = missing.iter().position(|m| m == g) {
+                            missing.remove(i);
+                        }
+                    }
+                    let bare = sql.contains("* EXCLUDE (") || sql.contains("* EXCEPT (");
+                    let all_excluded_names = !missing.is_empty()
+                        && missing.iter().all(|n| {
+                            regex::Regex::new(&format!(r"select !\{{[^}}]*\.{}\b", regex::escape(n))).map(|re| re.is_match(src)).unwrap_or(false)
+                        });
+                    if bare && all_excluded_names && got.len() + missing.len() == want.len() {
+                        o.verdict = Verdict::Known(F_BARE_EXCLUDE.into(), format!("columns {:?} of the other relation are excluded as well", missing));
+                    }
                 }
                 if matches!(o.verdict, Verdict::Known(..)) {
                     out.verdict = o.verdict;
